@@ -145,6 +145,8 @@ pub struct Name { pub bytes: Vec<u8> }
 impl Name {
     pub open spec fn view(&self) -> Seq<u8> { self.bytes@ }
 }
+/// `String::new()`
+pub fn name_new() -> (r: Name) ensures r@ == Seq::<u8>::empty() { Name { bytes: Vec::new() } }
 /// borrowed text (`&str`), viewed as its bytes
 #[verifier::external_body]
 pub struct VStr { _p: u8 }
@@ -215,6 +217,7 @@ pub fn map_err_to<T, E, F>(r: Result<T, E>, e: F) -> (o: Result<T, F>)
 //@sub /char::from\(/ => char_from_u8( min=0
 //@sub /"([^"]*)"\.to_owned\(\)/ => err_text("\1") min=0
 //@sub /children\.reserve_exact\([^;]*\);/ => "" min=0
+//@sub /String::new\(\)/ => name_new() min=0
 //@ret r
 //@sig
     requires
